@@ -20,6 +20,8 @@ import NoKVModel.Queue.Live
 import NoKVModel.Queue.Handshake
 import NoKVModel.Queue.Closer
 import NoKVModel.Queue.AllCfg
+import NoKVModel.Queue.Readable
+import NoKVModel.Queue.PackLoop
 
 namespace NoKV.Props.C37
 open NoKV NoKV.Queue
@@ -80,9 +82,47 @@ theorem C37_after_close (c : AllCfg) (hc : c.q.GoodLive) (p : Params) (s : St) (
   obtain ⟨_, iw⟩ := inv_reachable h
   exact ⟨iw.pr hc.2, iw.pw⟩
 
-/-- **Partial (as-is tree).**  Whatever the error path does, a call issued after `Close`
-returned never reaches the queue, and once `Close` has returned nothing is pending in the
-pipeline.  Missing: that the call *returns an error* (as-is it panics). -/
+/-- **After Close returns nothing is left unanswered and nothing is applied any more**
+(full statement; good write path).  In every reachable state in which `Close` has returned:
+the worker has exited; queue, batch and applied-not-acked list are empty; every client still
+inside `req.Wait` already has its ack (no request is left unanswered); every call issued after
+`Close` returned got an error class and was never enqueued; and in EVERY continuation — any
+further calls, client steps, throttle toggles, in any interleaving and of any length — the
+store is never changed again, the pipeline stays empty and the worker stays exited. -/
+theorem C37_after_close_full (c : AllCfg) (hc : c.q.GoodLive) (p : Params) (s : St)
+    (h : Reachable c.q p s) (h4 : s.clPc = 4) :
+    (s.wph = .done ∧ s.queue = [] ∧ s.batch = [] ∧ s.applied = []) ∧
+    (∀ (t : Nat) (cl : Client), s.clients[t]? = some cl → cl.pc = .wait → cl.acked = true) ∧
+    (∀ r ∈ s.pcRets, r = .blocked ∨ r = .hot ∨ r = .toobig ∨ r = .emptykey ∨ r = .closedErr ∨ r = .notfound) ∧
+    (∀ (t : Nat) (cl : Client), s.clients[t]? = some cl → cl.postClose = true → cl.pc ≠ .wait) ∧
+    (∀ (acts : List Act) (s' : St), run c.q p s acts = some s' →
+      s'.store = s.store ∧ s'.wph = .done ∧ s'.queue = [] ∧ s'.batch = [] ∧ s'.applied = [] ∧
+      s'.clPc = 4 ∧
+      (∀ (t : Nat) (cl : Client), s'.clients[t]? = some cl → cl.pc = .wait → cl.acked = true) ∧
+      (∀ r ∈ s'.pcRets, r = .blocked ∨ r = .hot ∨ r = .toobig ∨ r = .emptykey ∨ r = .closedErr ∨ r = .notfound)) := by
+  obtain ⟨hw, hq, hb, ha, hwait⟩ := C37_close_waits c hc.1 p s h (by omega)
+  obtain ⟨hpr, hpw⟩ := C37_after_close c hc p s h
+  refine ⟨⟨hw, hq, hb, ha⟩, hwait, hpr, hpw, ?_⟩
+  intro acts s' hr
+  obtain ⟨b1, b2, b3, b4, b5, b6⟩ := run_after_exit c.q p acts s s' hr hw hq (by omega)
+  have hreach : Reachable c.q p s' := by
+    obtain ⟨n, acts0, hr0⟩ := h
+    exact ⟨n, acts0 ++ acts, by rw [run_append, hr0]; simpa using hr⟩
+  have hcp := (inv_reachable hreach).2.cp
+  have h4' : s'.clPc = 4 := by omega
+  obtain ⟨_, _, _, _, hwait'⟩ := C37_close_waits c hc.1 p s' hreach (by omega)
+  exact ⟨b2, b1, b3, by rw [b4, hb], by rw [b5, ha], h4', hwait', (C37_after_close c hc p s' hreach).1⟩
+
+/-
+Full-strength statement the property demands: `C37_after_close_full` above (no request left
+unanswered, nothing applied afterwards, every later call answered with an error class).
+`C37_after_close_partial` below was the active obligation while `write-after-close-panics`
+was open: from the structural facts alone it says that a call issued after `Close` returned
+never reaches the queue and that nothing is pending once `Close` has returned.  What it
+lacks: that such a call RETURNS AN ERROR (as-is it panicked), that waiting clients have their
+ack, and that the state stays frozen in every continuation.  Superseded (kind `lemma`).
+-/
+/-- Lemma (superseded partial): post-Close calls are never enqueued; nothing pending at return. -/
 theorem C37_after_close_partial (c : AllCfg) (_hc : c.q.Struct) (p : Params) (s : St)
     (h : Reachable c.q p s) :
     (∀ (t : Nat) (cl : Client), s.clients[t]? = some cl → cl.postClose = true → cl.pc ≠ .wait) ∧
@@ -195,8 +235,39 @@ theorem C37_pack_terminates (c : AllCfg) (hc : c.p.Good) (m wal est : Nat) (hm :
     (he : 0 < est) : packDone c.p m wal est = true :=
   pack_good c.p hc m wal est hm he
 
-/-- **Partial (as-is tree)**: the same for entries whose size estimate does not exceed
-MemTableSize.  Missing: larger entries (see `C37_fails_asis_oversize_entry`). -/
+/-- **The packing loop terminates for every input** (full statement).  `mOpt` is
+`Options.MemTableSize` (ANY value, 0 included: `effSize` is the budget `NewLSM` derives),
+`ests` are the size estimates of the entries of one `SetBatch` call (any number, any sizes —
+also larger than the budget; `0 < e` is not a restriction, `EstimateEncodeSize` adds 52 to the
+key and value lengths), `act j` is whatever the WAL accounts for entry `j` (any function), `s` any
+starting state (any fill level, any index).  From `s` the loop reaches `done` after finitely
+many passes, none of which spins; `done` means that every entry has been written.  Termination
+is by the measure `2·(n − i) + [wal ≠ 0]` (`pstep_progress`), not by fuel. -/
+theorem C37_pack_loop_terminates (c : AllCfg) (hc : c.p.GoodSize) (mOpt : Nat)
+    (ests : List Nat) (hpos : ∀ e ∈ ests, 0 < e) (act : Nat → Nat) (s : PSt) :
+    PackTerminates c.p (effSize c.p mOpt) ests act s ∧
+    (∀ s0, pstep c.p (effSize c.p mOpt) ests act s0 ≠ .spin) ∧
+    (∀ s0 s1, pstep c.p (effSize c.p mOpt) ests act s0 = .next s1 →
+      pmu ests.length s1 < pmu ests.length s0) ∧
+    (∀ s0, pstep c.p (effSize c.p mOpt) ests act s0 = .done ↔ ests.length ≤ s0.i) :=
+  have hm := effSize_pos c.p hc.2 mOpt
+  ⟨pack_loop_terminates c.p hc.1 _ hm ests hpos act s,
+   fun s0 => (pstep_progress c.p hc.1 _ hm ests hpos act s0).1,
+   fun s0 s1 => (pstep_progress c.p hc.1 _ hm ests hpos act s0).2 s1,
+   fun s0 => pstep_done_iff c.p _ ests act s0⟩
+
+/-
+Full-strength statement the property demands: `C37_pack_loop_terminates` above (whole loop,
+every batch, every entry size, every fill level; measure-based).  `C37_pack_terminates` is its
+one-entry instance ("written after at most one rotation").  `C37_pack_terminates_partial`
+below was the active obligation while `oversize-entry-rotates-forever` was open: operators
+only, one entry, and the hypothesis `est ≤ MemTableSize`.  What it lacks: entries larger than
+MemTableSize (the real code was run there: it rotated for ever — that became the finding and
+the repair `lsm.oversizeAlone`), batches of more than one entry, and `MemTableSize = 0` (the
+hypothesis `0 < m`; the real code was run there too: the first write hangs — finding
+`memtable-size-zero-rotates-forever`, flag `lsm.sizeDefaulted`).  Superseded (kind `lemma`).
+-/
+/-- Lemma (superseded partial): one entry with `est ≤ MemTableSize`, operators only. -/
 theorem C37_pack_terminates_partial (c : AllCfg) (hc : c.p.OpsGood) (m wal est : Nat)
     (hm : 0 < m) (he : 0 < est) (hsz : est ≤ m) : packDone c.p m wal est = true :=
   pack_ops_good c.p hc m wal est hm he hsz
@@ -205,11 +276,40 @@ theorem C37_pack_terminates_partial (c : AllCfg) (hc : c.p.OpsGood) (m wal est :
 memtable, is found not to fit, the memtable is rotated — and the next empty memtable is in
 exactly the same state: the commit worker rotates for ever, every write and `Close` hang. -/
 theorem C37_fails_asis_oversize_entry (c : AllCfg)
-    (hc : c.p = { fitOp := .gt, guardOp := .gt, oversizeAlone := false }) :
+    (hc : c.p.fitOp = .gt ∧ c.p.guardOp = .gt ∧ c.p.oversizeAlone = false) :
     packFirst c.p 65536 0 65537 = .rotated ∧ packDone c.p 65536 0 65537 = false := by
-  rw [hc]; decide
+  obtain ⟨h1, h2, h3⟩ := hc
+  simp [packDone, packFirst, h1, h2, h3, CmpOp.nat, CmpOp.eval]
+
+/-- As-is (`sizeDefaulted = false`): with `Options.MemTableSize = 0` (an `Options` value not
+built by `NewDefaultOptions`) no entry can ever fit: the very first write makes the commit
+worker rotate empty memtables for ever (same state again, the measure does not decrease). -/
+theorem C37_fails_asis_zero_memtable (c : AllCfg)
+    (hc : c.p.guardOp = .gt ∧ c.p.sizeDefaulted = false) :
+    effSize c.p 0 = 0 ∧ pstep c.p (effSize c.p 0) [60] (fun _ => 0) ⟨0, 0⟩ = .next ⟨0, 0⟩ := by
+  obtain ⟨h2, h4⟩ := hc
+  simp [effSize, pstep, h2, h4, CmpOp.nat, CmpOp.eval]
 
 /-! ### non-vacuity -/
+
+/-- iterate `pstep` (examples only; the theorems do not use fuel) -/
+def piter (c : PCfg) (m : Nat) (ests : List Nat) (act : Nat → Nat) : Nat → PSt → List PSt
+  | 0, _ => []
+  | n + 1, s => match pstep c m ests act s with
+    | .next s' => s' :: piter c m ests act n s'
+    | _ => []
+
+/-- a batch of five entries into a 64 KiB memtable already holding 1031 bytes: a slice of two,
+a rotation, an oversize entry alone, a rotation, the last two — then `done` -/
+example : piter PCfg.good 65536 [100, 30000, 50000, 70000, 60000, 5000] (fun j => [90, 29990, 49990, 69990, 59990, 4990].getD j 0) 10 ⟨0, 1031⟩ =
+    [⟨2, 31111⟩, ⟨2, 0⟩, ⟨3, 49990⟩, ⟨3, 0⟩, ⟨4, 69990⟩, ⟨4, 0⟩, ⟨6, 64980⟩] ∧
+    pstep PCfg.good 65536 [100, 30000, 50000, 70000, 60000, 5000] (fun _ => 0) ⟨6, 64980⟩ = .done := by
+  decide
+
+/-- without the oversize rule the 70000-byte entry makes the loop rotate for ever (the measure
+does not decrease: same state again) -/
+example : pstep { PCfg.good with oversizeAlone := false } 65536 [70000] (fun _ => 0) ⟨0, 0⟩ = .next ⟨0, 0⟩ := by
+  decide
 
 /-- the operators matter: with `>=` as the fit test an entry that fills the memtable exactly
 neither fits nor rotates -/
